@@ -300,3 +300,49 @@ def replay_index_order(inputs, obl):
     if problems:
         return dict(confirmed=True, detail='; '.join(problems[:2]))
     return dict(confirmed=False, detail='rows of a table indexed on one or two columns are ordered by those columns in the order given')
+
+
+def replay_index_change_pending(inputs, obl):
+    """creating or dropping an index while rows are still buffered (no read since the inserts): the buffered rows must be merged under the
+    rule they were inserted under - against a model (dict by key while indexed, list otherwise)"""
+    from klongpy import KlongInterpreter
+    problems = []
+    hists = [
+        ['index', ('ins', [2, 99]), 'rindex'],
+        ['index', ('ins', [2, 99]), ('ins', [0, 5]), 'rindex'],
+        ['index', ('ins', [3, 31]), ('ins', [3, 32]), 'rindex', ('ins', [3, 33])],
+        [('ins', [2, 99]), 'index'],
+        ['index', ('ins', [1, 11]), 'rindex', 'index', ('ins', [1, 12]), 'rindex'],
+    ]
+    for h in hists:
+        k = KlongInterpreter()
+        k('.py("klongpy.db")')
+        k('T::.table([["a" [1 2 3]] ["b" [10 20 30]]])')
+        rows, indexed = [[1, 10], [2, 20], [3, 30]], False
+        try:
+            for op in h:
+                if op == 'index':
+                    k('.index(T;["a"])')
+                    seen = {}
+                    for r in rows:          # one row per key (the last), ordered by key
+                        seen[r[0]] = r
+                    rows, indexed = [seen[x] for x in sorted(seen)], True
+                elif op == 'rindex':
+                    k('.rindex(T)')
+                    indexed = False
+                else:
+                    k(f'.insert(T;[{op[1][0]} {op[1][1]}])')
+                    if indexed:
+                        d = {r[0]: r for r in rows}
+                        d[op[1][0]] = list(op[1])
+                        rows = [d[x] for x in sorted(d)]
+                    else:
+                        rows.append(list(op[1]))
+            got = [list(map(int, r)) for r in zip(k('T?"a"'), k('T?"b"'))]
+            if got != rows:
+                problems.append(f"{h}: the table holds {got}, the rows inserted are {rows}")
+        except Exception as e:
+            problems.append(f"{h}: raised {type(e).__name__}: {str(e)[:80]}")
+    if problems:
+        return dict(confirmed=True, detail='; '.join(problems[:2]))
+    return dict(confirmed=False, detail='index changes with pending rows agree with the model')
